@@ -63,6 +63,30 @@ def gapFitsBack (S : Schema) (doc : Node) (f t gf gt : Nat) : Bool :=
     | .error _ => false
   | _, _ => false
 
+/-- adjacency at a seam: not two text nodes with equal marks -/
+def seamFree : Option Node → Option Node → Bool
+  | some a, some b => adjOk a b
+  | _, _ => true
+
+/-- `T` (relative to the list) is a child boundary, and the node before the gap (`prev`) does not
+    merge with the node after it -/
+def gapEnd (prev : Option Node) : List Node → Nat → Bool
+  | [], T => T == 0
+  | n :: ns, T => if T = 0 then seamFree prev (some n) else decide (n.size ≤ T) && gapEnd prev ns (T - n.size)
+
+/-- **structural sufficient condition for `gapFitsBack`**: the gap `F … T` lies between complete
+    children of the list or of a node reached by descending into element children (both ends at child
+    boundaries of the same node, not inside text), and the children before and after it are not two
+    texts with equal marks.  (`prev` = the child before the current scan position.) -/
+def gapClean : List Node → Option Node → Nat → Nat → Bool
+  | [], _, F, T => F == 0 && T == 0
+  | n :: ns, prev, F, T =>
+    if F = 0 then gapEnd prev (n :: ns) T
+    else if n.size ≤ F then gapClean ns (some n) (F - n.size) (T - n.size)
+    else match n with
+      | .elem _ _ _ k => decide (T < n.size) && gapClean k none (F - 1) (T - 1)
+      | _ => false
+
 /-- the guard `sidesCompatible` for the plain replace a replace-around step performs (its slice
     with the gap inserted) -/
 def sidesCompatibleAround (S : Schema) (doc : Node) (f t gf gt : Nat) (sl : Slice) (ins : Nat) : Bool :=
